@@ -704,7 +704,13 @@ class Engine:
             goal = self.spec_bool(e, env2)
             nm = '%s/ensures#%d' % (self.fn_short, k + 1)
             facts = self.st.ghost.get('facts', {})
-            if using is None or not all(u in facts for u in using):
+            if isinstance(e, str) and self._prove_by_form(e, env2, nm, label[:60]):
+                continue
+            if case.get('split_ensures', contract.get('split_ensures')) and z3.is_and(goal) and goal.num_args() > 1:
+                # one obligation per top-level conjunct (smaller queries; a failure names the conjunct)
+                for j in range(goal.num_args()):
+                    self.oblige('ensures', goal.arg(j), self.fdef, name='%s.%d' % (nm, j + 1), note=label[:60])
+            elif using is None or not all(u in facts for u in using):
                 self.oblige('ensures', goal, self.fdef, name=nm, note=label[:60])
             else:
                 hyps = []
@@ -712,6 +718,22 @@ class Engine:
                     v = facts[u]
                     hyps.extend(v if isinstance(v, list) else [v])
                 self.oblige_focused('ensures', hyps, goal, self.fdef, name=nm)
+
+    def _prove_by_form(self, e, env, name, note):
+        """clauses whose top-level form brings its own proof procedure (explicit instantiation)"""
+        from . import spec
+        try:
+            node = ast.parse(e.strip(), mode='eval').body
+        except SyntaxError:
+            return False
+        if not (isinstance(node, ast.Call) and isinstance(node.func, ast.Name) and node.func.id in spec.PROVERS):
+            return False
+        saved_env, saved_heap = self.st.env, self.st.heap
+        self.st.env = dict(env)
+        try:
+            return bool(spec.PROVERS[node.func.id](self, node, name, note))
+        finally:
+            self.st.env, self.st.heap = saved_env, saved_heap
 
     # ------------------------------------------------------------------ typed inputs
     def make_value(self, name, T, fresh=False):
